@@ -193,6 +193,23 @@ def audit_props(prop):
                 problems=problems, log=(out + err)[-3000:], wall=dt)
 
 
+def coqchk(prop):
+    """Independent re-check of Props/<prop>.vo and everything it depends on (thorough tier)."""
+    rc, out, err, dt = run(["coqchk", "-silent", "-o", "-Q", ".", "Anydb", f"Anydb.Props.{prop}"], cwd=COQ, timeout=3000)
+    text = out + err
+    axioms = []
+    m = re.search(r"\* Axioms:(.*?)\n\s*\n\* Constants/Inductives relying on type-in-type", text, re.S)
+    if m:
+        axioms = [l.strip() for l in m.group(1).splitlines() if l.strip() and l.strip() != "<none>"]
+    bad = []
+    for sect in ("relying on type-in-type", "relying on unsafe (co)fixpoints", "whose positivity is assumed"):
+        mm = re.search(re.escape(sect) + r":(.*?)(?:\n\s*\n|$)", text, re.S)
+        if mm and "<none>" not in mm.group(1):
+            bad.append(sect + ":" + mm.group(1).strip()[:200])
+    ok = rc == 0 and not bad and all(a.split()[0] in AXIOM_ALLOW or a.split(".")[-1] in AXIOM_ALLOW for a in axioms)
+    return dict(ok=ok, rc=rc, axioms=axioms, problems=bad, wall=dt, log=text[-1500:])
+
+
 def build_driver():
     model = os.path.join(OCAML, "model.ml")
     drv = os.path.join(OCAML, "driver")
